@@ -197,3 +197,134 @@ pub fn c14_animation_header_roundtrip() {
     kani::cover!(s2 == 3 && loops == u32::MAX, "32-bit loop count");
     kani::cover!(s0 == 1 && s1 == 1, "1000/1001 ticks");
 }
+
+const PREVIEW_DIV8_DIST: [U32Dist; 4] = [U32Dist::Val(16), U32Dist::Val(32), U32Dist::Bits(1, 5), U32Dist::Bits(33, 9)];
+const PREVIEW_DIST: [U32Dist; 4] = [U32Dist::Bits(1, 6), U32Dist::Bits(65, 8), U32Dist::Bits(321, 10), U32Dist::Bits(1345, 12)];
+
+// @prop C14
+// @tier quick
+// @unit jxl_image::PreviewHeader::parse (conditional layout, SizeHeader::compute_default_width)
+// @sym every encoding of PreviewHeader: div8 form (U32(16, 32, 1+u(5), 33+u(9)) for both sides) or explicit form (U32(1+u(6), 65+u(8), 321+u(10), 1345+u(12))), every selector and value, ratio 0..=7
+// @bound complete over the bundle
+// @oblig reported height and width equal what was written (width from the aspect-ratio code when ratio != 0, as A.4 defines it for the preview); exact bit count
+#[kani::proof]
+#[kani::unwind(9)]
+pub fn c14_preview_header_roundtrip() {
+    let mut w = BitWriter::new();
+    let div8: bool = kani::any();
+    let ratio: u32 = kani::any();
+    kani::assume(ratio <= 7);
+    let (s0, s1): (usize, usize) = (kani::any(), kani::any());
+    kani::assume(s0 < 4 && s1 < 4);
+    let (hv, wv): (u32, u32) = (kani::any(), kani::any());
+    w.put_bool(div8);
+    let height = if div8 {
+        kani::assume(put_u32(&mut w, PREVIEW_DIV8_DIST, s0, hv));
+        8 * hv
+    } else {
+        kani::assume(put_u32(&mut w, PREVIEW_DIST, s0, hv));
+        hv
+    };
+    w.put(ratio as u64, 3);
+    let mut width = 0;
+    if ratio == 0 {
+        width = if div8 {
+            kani::assume(put_u32(&mut w, PREVIEW_DIV8_DIST, s1, wv));
+            8 * wv
+        } else {
+            kani::assume(put_u32(&mut w, PREVIEW_DIST, s1, wv));
+            wv
+        };
+    }
+    let expect_bits = w.nbits;
+    w.put(kani::any::<u64>(), 9);
+    let bytes = w.bytes();
+    let mut bs = Bitstream::new(&bytes[..]);
+    let p = jxl_image::PreviewHeader::parse(&mut bs, ()).unwrap();
+    assert!(p.height == height);
+    if ratio == 0 {
+        assert!(p.width == width);
+    } else {
+        assert!(p.width as u64 == spec_ratio_width(ratio, height));
+    }
+    assert!(bs.num_read_bits() == expect_bits);
+    kani::cover!(div8 && s0 == 3 && ratio == 3, "largest div8 form with 4:3 ratio");
+    kani::cover!(!div8 && ratio == 0 && s1 == 3, "explicit 12-bit width");
+}
+
+const XY_DIST: [U32Dist; 4] = [U32Dist::Bits(0, 19), U32Dist::Bits(524288, 19), U32Dist::Bits(1048576, 20), U32Dist::Bits(2097152, 21)];
+
+// @prop C14
+// @tier quick
+// @unit jxl_image::Customxy::parse (U32 with UnpackSigned)
+// @sym every encoding of both coordinates: every selector, every raw value
+// @bound complete over the bundle
+// @oblig x and y equal UnpackSigned of the written unsigned values (even u -> u/2, odd u -> -(u+1)/2); exact bit count
+#[kani::proof]
+#[kani::unwind(9)]
+pub fn c14_customxy_roundtrip() {
+    let mut w = BitWriter::new();
+    let (s0, s1): (usize, usize) = (kani::any(), kani::any());
+    kani::assume(s0 < 4 && s1 < 4);
+    let (ux, uy): (u32, u32) = (kani::any(), kani::any());
+    kani::assume(put_u32(&mut w, XY_DIST, s0, ux));
+    kani::assume(put_u32(&mut w, XY_DIST, s1, uy));
+    let expect_bits = w.nbits;
+    w.put(kani::any::<u64>(), 9);
+    let bytes = w.bytes();
+    let mut bs = Bitstream::new(&bytes[..]);
+    let c = jxl_image::color::Customxy::parse(&mut bs, ()).unwrap();
+    let unpack = |u: u32| -> i64 { if u % 2 == 0 { (u / 2) as i64 } else { -(((u as i64) + 1) / 2) } };
+    assert!(c.x as i64 == unpack(ux));
+    assert!(c.y as i64 == unpack(uy));
+    assert!(bs.num_read_bits() == expect_bits);
+    kani::cover!(s0 == 3 && ux % 2 == 1, "negative x in the widest form");
+    kani::cover!(uy == 0, "zero");
+}
+
+// @prop C14
+// @tier quick
+// @unit jxl_image::color::ToneMapping::parse (all_default, three F16 fields, one flag)
+// @sym all_default or any three half-float bit patterns and the flag
+// @bound complete over the bundle
+// @oblig all_default yields 255 / 0 / false / 0; otherwise each field is exactly the half float written (NaN and infinities rejected); exact bit count
+#[kani::proof]
+#[kani::unwind(9)]
+pub fn c14_tone_mapping_roundtrip() {
+    let mut w = BitWriter::new();
+    let all_default: bool = kani::any();
+    let (h0, h1, h2): (u16, u16, u16) = (kani::any(), kani::any(), kani::any());
+    let rel: bool = kani::any();
+    w.put_bool(all_default);
+    if !all_default {
+        w.put(h0 as u64, 16);
+        w.put(h1 as u64, 16);
+        w.put_bool(rel);
+        w.put(h2 as u64, 16);
+    }
+    let expect_bits = w.nbits;
+    w.put(kani::any::<u64>(), 9);
+    let bytes = w.bytes();
+    let mut bs = Bitstream::new(&bytes[..]);
+    match jxl_image::color::ToneMapping::parse(&mut bs, ()) {
+        Ok(t) => {
+            if all_default {
+                assert!(t.intensity_target == 255.0 && t.min_nits == 0.0 && !t.relative_to_max_display && t.linear_below == 0.0);
+            } else {
+                let (f0, f1, f2) = (f16_bits_to_f32_bits(h0), f16_bits_to_f32_bits(h1), f16_bits_to_f32_bits(h2));
+                assert!(f0.is_some() && f1.is_some() && f2.is_some());
+                assert!(t.intensity_target.to_bits() == f0.unwrap());
+                assert!(t.min_nits.to_bits() == f1.unwrap());
+                assert!(t.linear_below.to_bits() == f2.unwrap());
+                assert!(t.relative_to_max_display == rel);
+            }
+            assert!(bs.num_read_bits() == expect_bits);
+            kani::cover!(!all_default && rel, "explicit tone mapping");
+        }
+        Err(e) => {
+            assert!(!all_default);
+            assert!(f16_bits_to_f32_bits(h0).is_none() || f16_bits_to_f32_bits(h1).is_none() || f16_bits_to_f32_bits(h2).is_none());
+            core::mem::forget(e);
+        }
+    }
+}
